@@ -401,11 +401,8 @@ fn huge(rng: &mut Rng, bin: bool, maxcode: u64) -> Vec<u8> {
 }
 
 /// One case line.  `opt` selects the family:
-/// rt | layout | mutate | arbitrary | utf8 | huge | corrupt | fault | ls
+/// rt | layout | mutate | arbitrary | utf8 | huge | corrupt | fault | ls | scale[:valid|:err|:fault|:ls]
 pub fn gen_case(rng: &mut Rng, opt: &str, thorough: bool) -> String {
-    if opt.starts_with("scale") {
-        return gen_scale(rng, opt, thorough);
-    }
     let (ty, maxcode) = *rng.pick(TYPES);
     let family = if opt.is_empty() || opt == "mix" {
         *rng.pick(&["rt", "rt", "layout", "layout", "mutate", "mutate", "arbitrary", "utf8", "huge", "corrupt", "fault", "ls"])
@@ -535,6 +532,7 @@ pub fn gen_case(rng: &mut Rng, opt: &str, thorough: bool) -> String {
             case.ls = true;
             case.mode = "stream".into();
         }
+        f if f.starts_with("scale") => return gen_scale(rng, f, thorough),
         _ => panic!("unknown family {}", family),
     }
     case.line()
@@ -554,4 +552,551 @@ pub fn fault_sweep(rng: &mut Rng) -> Vec<String> {
             dtext: None, cut: None, post: None, chunk: None,
         }.line())
         .collect()
+}
+
+// ------------------------------------------------------------------ scale family (`--opt scale`)
+//
+// Every size-like dimension of an AIGER file is taken beyond 2^20: the number of entries of each
+// section (inputs, latches, outputs, bad, constraints, justice properties, literals of one justice
+// property, fairness, and gates, symbols), the length of a symbol name and of the comment, the
+// byte position of everything that follows (long numerals make 40-byte lines, so a position beyond
+// 1 MiB needs only ~30k items), the length of a run of one byte class in front of an error, the
+// value of the counters (M, I up to the literal type's limit, multi-byte deltas).  Sizes come from
+// `common::scale_sizes` (around powers of two and around every integer constant of the source).
+// A document is a short list of data-field segments, so a 4 MiB case is a line of ~200 bytes.
+//
+// One case = one well-formed document in which several dimensions have a scale size (one
+// "primary" dimension, rotating over (format, section), may get a size > 2^17 when the running
+// item budget allows) + a tail event: none (valid; modes stream / parse / skip, `w=1`), `cut`
+// (truncated), corrupt (`cut` + `post`: a bad token or a run of spaces / digits / zeros /
+// newlines / 0x80 at a token start, with the exact location in `t`), `k` (io fault), `ls=1`
+// (one line per read, chunk `c`).  Tail positions are mostly near the end of the document.
+
+use std::collections::HashSet;
+use std::sync::Mutex;
+
+#[derive(Clone, Copy, PartialEq, Eq, Hash, Debug)]
+enum Dim { Inputs, Latches, Outputs, Bad, Constraints, JusticeCount, JusticeSize, Fairness, Gates, Symbols, Name, Comment }
+
+/// (binary, dimension) pairs whose size is a number of items; the primary dimension rotates over these.
+const ITEM_DIMS: &[(bool, Dim)] = &[
+    (true, Dim::Gates), (false, Dim::Outputs), (false, Dim::Gates), (true, Dim::Latches), (false, Dim::Inputs),
+    (true, Dim::Fairness), (false, Dim::JusticeSize), (true, Dim::Symbols), (false, Dim::Latches), (true, Dim::Bad),
+    (false, Dim::JusticeCount), (true, Dim::Outputs), (false, Dim::Constraints), (true, Dim::JusticeSize),
+    (false, Dim::Symbols), (true, Dim::Constraints), (false, Dim::Fairness), (true, Dim::JusticeCount), (false, Dim::Bad),
+];
+
+/// Sizes up to this are "cheap": several dimensions of one case may have one.
+const CHEAP: usize = 1 << 17;
+
+struct ScaleState {
+    index: usize,
+    spent: usize,
+    big_slots: usize,
+    seen: HashSet<(bool, Dim, usize)>,
+    /// candidate sizes in order of preference: (size, derived from a source constant)
+    cheap: Vec<usize>,
+    big: Vec<usize>,
+    all: Vec<usize>,
+}
+
+static SCALE: Mutex<Option<ScaleState>> = Mutex::new(None);
+
+fn scale_state_new() -> ScaleState {
+    let all = scale_sizes(10, 21);
+    let hi = (1u128 << 21) + 64;
+    // sizes derived from a source constant, with the rank of the derivation: just above the
+    // constant first, then one period more, the constant itself, ...
+    let mut ranked: Vec<(usize, usize)> = vec![];
+    for c in source_consts() {
+        let c = c as u128;
+        let d = [c + 1, 2 * c + 1, c, c + 8, c.saturating_sub(1), c + 9, 2 * c, 3 * (c + 1), 4 * c + 4, 5 * (c + 1)];
+        for (rank, x) in d.iter().enumerate() {
+            if *x >= 1024 && *x <= hi && all.contains(&(*x as usize)) {
+                ranked.push((rank, *x as usize));
+            }
+        }
+    }
+    ranked.sort();
+    let mut pref: Vec<usize> = vec![];
+    for (_, x) in &ranked {
+        if !pref.contains(x) { pref.push(*x); }
+    }
+    // then around the powers of two: 2^20 first (the brief: beyond 2^20 + a bit), 2^21, then downwards
+    for k in [20u32, 21, 19, 18, 17, 16, 15, 14, 13, 12, 11, 10] {
+        let p = 1usize << k;
+        for x in [p + 1, p + 9, p, p - 1, p + 3, p + 8] {
+            if all.contains(&x) && !pref.contains(&x) { pref.push(x); }
+        }
+    }
+    for x in &all {
+        if !pref.contains(x) { pref.push(*x); }
+    }
+    ScaleState {
+        index: 0, spent: 0, big_slots: 0, seen: HashSet::new(),
+        cheap: pref.iter().copied().filter(|x| *x <= CHEAP).collect(),
+        big: pref.iter().copied().filter(|x| *x > CHEAP).collect(),
+        all,
+    }
+}
+
+/// A document under construction: compact field text and expanded bytes side by side.
+struct Doc { segs: Vec<String>, lit: Vec<u8>, bytes: Vec<u8> }
+
+impl Doc {
+    fn new() -> Doc { Doc { segs: vec![], lit: vec![], bytes: vec![] } }
+    fn flush(&mut self) {
+        if !self.lit.is_empty() {
+            self.segs.push(compact_field(&self.lit));
+            self.lit.clear();
+        }
+    }
+    fn text(&mut self, b: &[u8]) {
+        self.lit.extend_from_slice(b);
+        self.bytes.extend_from_slice(b);
+    }
+    fn rep(&mut self, count: usize, pat: &[u8]) {
+        if count == 0 || pat.is_empty() { return; }
+        if count * pat.len() <= 48 {
+            for _ in 0..count { self.text(pat); }
+            return;
+        }
+        self.flush();
+        self.segs.push(format!("r{}.{}", count, hex(pat)));
+        for _ in 0..count { self.bytes.extend_from_slice(pat); }
+    }
+    fn nums(&mut self, count: usize, start: u64, step: u64, pre: &[u8], suf: &[u8]) {
+        if count == 0 { return; }
+        self.flush();
+        self.segs.push(format!("n{}.{}.{}.{}.{}", count, start, step, hex(pre), hex(suf)));
+        for i in 0..count as u64 {
+            self.bytes.extend_from_slice(pre);
+            self.bytes.extend_from_slice((start + i * step).to_string().as_bytes());
+            self.bytes.extend_from_slice(suf);
+        }
+    }
+    fn field(&mut self) -> String {
+        self.flush();
+        if self.segs.is_empty() { "-".into() } else { self.segs.join("+") }
+    }
+}
+
+/// The next size for `(bin, dim)` from `list` that this dimension has not had yet and that is at
+/// most `cap`; when all have been seen, a random one (or a random size in between).
+fn next_size(st: &mut ScaleState, rng: &mut Rng, bin: bool, dim: Dim, big: bool, cap: usize) -> Option<usize> {
+    let list = if big { st.big.clone() } else { st.cheap.clone() };
+    let fit: Vec<usize> = list.iter().copied().filter(|x| *x <= cap).collect();
+    if fit.is_empty() { return None; }
+    let pick = match fit.iter().find(|x| !st.seen.contains(&(bin, dim, **x))) {
+        Some(x) if !rng.chance(1, 6) => *x,
+        _ => {
+            if rng.chance(1, 2) { *rng.pick(&fit) } else {
+                // a size in between, log-uniform
+                let lo = *fit.iter().min().unwrap() as f64;
+                let hi = *fit.iter().max().unwrap() as f64;
+                let u = rng.below(1 << 20) as f64 / (1u64 << 20) as f64;
+                (lo * (hi / lo).powf(u)) as usize
+            }
+        }
+    };
+    st.seen.insert((bin, dim, pick));
+    Some(pick)
+}
+
+const SCALE_NAMES: &[&str] = &["x", "", "a b", "n\u{e4}me", "in 0", "\u{65e5}\u{672c}", "c", "i0 y"];
+const NAME_PATS: &[&str] = &["a", "ab ", " ", "\u{e4}", "\u{20ac}", "\u{1f600}", "x\u{7ff}y"];
+const COMMENT_PATS: &[&str] = &["x", "\n", "line\n", "c\n", "\u{20ac}", "\u{10ffff}\n", "a b\tc "];
+
+pub fn gen_scale(rng: &mut Rng, opt: &str, thorough: bool) -> String {
+    let mut guard = SCALE.lock().unwrap();
+    if guard.is_none() { *guard = Some(scale_state_new()); }
+    let st = guard.as_mut().unwrap();
+    let index = st.index;
+    st.index += 1;
+
+    // ---- tail event and mode
+    let tails: &[&str] = match opt {
+        "scale:valid" => &["valid"],
+        "scale:err" => &["cut", "corrupt", "corrupt"],
+        "scale:fault" => &["fault"],
+        "scale:ls" => &["ls"],
+        _ => &["valid", "valid", "valid", "ls", "ls", "corrupt", "corrupt", "cut", "fault", "fault"],
+    };
+    let (pbin, pdim) = ITEM_DIMS[(index * 7 + index / ITEM_DIMS.len()) % ITEM_DIMS.len()];
+    let bin = pbin;
+    let avg: usize = if thorough { 350_000 } else { 200_000 };
+    let allowance = avg * (index + 6);
+    let room = allowance.saturating_sub(st.spent);
+    // a big slot: the primary dimension gets a size beyond 2^17
+    let big_slot = room >= (1 << 20) + 64 || (room >= (1 << 18) + 64 && rng.chance(1, 2));
+    // big slots walk through the tail events and modes so that few of them cover all
+    let tail: &str = if big_slot { tails[(st.big_slots * 3) % tails.len()] } else { *rng.pick(tails) };
+    let mut mode: &str = if tail == "ls" { "stream" } else if big_slot {
+        ["stream", "parse", "skip", "stream"][st.big_slots % 4]
+    } else {
+        match rng.below(10) { 0..=2 => "parse", 3 | 4 => "skip", _ => "stream" }
+    };
+    if big_slot { st.big_slots += 1; }
+
+    // ---- literal type
+    let (ty, maxcode) = match rng.below(10) {
+        0 => TYPES[0], 1 => TYPES[1], 2..=4 => TYPES[2], 5..=7 => TYPES[3], _ => TYPES[4],
+    };
+    let mmax = (maxcode - 1) / 2;
+    let small_ty = mmax < (1 << 22);
+
+    // ---- sizes of the dimensions
+    let mut size: std::collections::HashMap<Dim, u64> = std::collections::HashMap::new();
+    let dims = [Dim::Inputs, Dim::Latches, Dim::Outputs, Dim::Bad, Dim::Constraints, Dim::JusticeCount,
+        Dim::JusticeSize, Dim::Fairness, Dim::Gates, Dim::Symbols, Dim::Name, Dim::Comment];
+    for d in dims { size.insert(d, small(rng)); }
+    size.insert(Dim::JusticeSize, 0);
+    size.insert(Dim::Name, 0);
+    size.insert(Dim::Comment, 0);
+    // variables the literal type still has room for (inputs, latches, and gates share them)
+    let mut vars_left: u64 = mmax;
+    let is_var = |d: Dim| matches!(d, Dim::Inputs | Dim::Latches | Dim::Gates);
+    let hi = (1usize << 21) + 64;
+    let mut items: usize = 0;
+    // primary first
+    {
+        let cap = if is_var(pdim) { (vars_left.min(hi as u64)) as usize } else { hi };
+        let s = if small_ty && is_var(pdim) {
+            // the type limit is the scale: fill the variable range exactly (or all but a few)
+            Some((mmax - rng.below(3).min(mmax)) as usize)
+        } else if big_slot {
+            next_size(st, rng, bin, pdim, true, cap.min(room)).or_else(|| next_size(st, rng, bin, pdim, false, cap))
+        } else {
+            next_size(st, rng, bin, pdim, false, cap)
+        };
+        if let Some(s) = s {
+            size.insert(pdim, s as u64);
+            items += s;
+            if is_var(pdim) { vars_left -= s as u64; }
+        }
+    }
+    // secondary dimensions: a cheap scale size while the per-case budget lasts
+    let mut order: Vec<Dim> = dims.iter().copied().filter(|d| *d != pdim).collect();
+    for i in (1..order.len()).rev() {
+        let j = rng.below(i as u64 + 1) as usize;
+        order.swap(i, j);
+    }
+    let case_budget = avg / 2;
+    for d in order {
+        match d {
+            Dim::Name | Dim::Comment => {
+                // bytes, not items: any size
+                if rng.chance(1, 2) {
+                    let bigone = rng.chance(1, 3);
+                    if let Some(s) = next_size(st, rng, bin, d, bigone, hi) { size.insert(d, s as u64); }
+                }
+            }
+            _ => {
+                if bin && d == Dim::Inputs { continue; } // only a number in the header: set below
+                if !rng.chance(1, 2) { continue; }
+                let left = case_budget.saturating_sub(items.min(case_budget));
+                let cap = if is_var(d) { (vars_left.saturating_sub(8).min(left as u64)) as usize } else { left };
+                if cap < 1024 { continue; }
+                if let Some(s) = next_size(st, rng, bin, d, false, cap) {
+                    let old = size[&d];
+                    if is_var(d) { vars_left -= s as u64; }
+                    size.insert(d, s as u64);
+                    items += s;
+                    let _ = old;
+                }
+            }
+        }
+    }
+    let js = size[&Dim::JusticeSize];
+    if js > 0 && size[&Dim::JusticeCount] == 0 { size.insert(Dim::JusticeCount, 1); }
+    // the other justice properties: 0, 1 or 2 literals each (fewer when there are many)
+    let nj = size[&Dim::JusticeCount];
+    let jc: u64 = if nj > 4096 { rng.below(2) } else { rng.below(3) };
+    // the whole-file model distributes justice literals in quadratic time: keep `parse` for the
+    // small ones (the harness compares parse() with the independent reading for every valid case)
+    if mode == "parse" && (nj > 4096 || js > 4096) { mode = "stream"; }
+
+    let (nl, no, nb, nc, nf, na) = (size[&Dim::Latches], size[&Dim::Outputs], size[&Dim::Bad], size[&Dim::Constraints], size[&Dim::Fairness], size[&Dim::Gates]);
+    let mut ni = size[&Dim::Inputs];
+    // small literal types: the sections that define variables must fit
+    let fit = |ni: u64, nl: u64, na: u64| ni as u128 + nl as u128 + na as u128 <= mmax as u128;
+    let (mut nl, mut na) = (nl, na);
+    while !fit(ni, nl, na) {
+        // shrink the non-primary ones first
+        if pdim != Dim::Gates && na > 0 { na /= 2; } else if pdim != Dim::Latches && nl > 0 { nl /= 2; } else if ni > 0 { ni /= 2; } else if na > 0 { na /= 2; } else { nl /= 2; }
+    }
+    // wide: literals at the top of the type's range, so numerals are long and lines are wide
+    let wide = rng.chance(1, 2);
+    let used = ni + nl + na;
+    let mut v0: u64 = 0; // aag: variables v0+1.. are the defined ones
+    if bin {
+        // the input count is free: small, a scale size, or close to the type limit
+        let room_i = mmax - nl - na;
+        ni = match rng.below(4) {
+            0 => rng.below(3).min(room_i),
+            1 => (*rng.pick(&st.all) as u64).min(room_i),
+            _ if wide => room_i - rng.below(4).min(room_i),
+            _ => rng.range(0, 70).min(room_i),
+        };
+    } else if wide {
+        v0 = mmax - used - rng.below(3).min(mmax - used);
+    }
+    let defined = if bin { ni + nl + na } else { v0 + used };
+    let m = match rng.below(3) { 0 => defined, 1 => mmax, _ => defined + rng.below(5).min(mmax - defined) };
+    let maxlit: u128 = 2 * m as u128 + 1;
+    let fixed_lit = |rng: &mut Rng| -> u64 {
+        let c: [u128; 6] = [0, 1, maxlit, maxlit - 1, 2, 3];
+        (*rng.pick(&c)).min(maxlit) as u64
+    };
+    let mut canonical = true;
+
+    // ---- the document
+    let mut d = Doc::new();
+    let need_sym = size[&Dim::Symbols] > 0 || size[&Dim::Name] > 0;
+    let no = if need_sym && ni + nl + no + nb + nc + nj + nf == 0 { 1 } else { no };
+    let h = [m, ni, nl, no, na, nb, nc, nj, nf];
+    let mut need = 9;
+    while need > 5 && h[need - 1] == 0 { need -= 1; }
+    let fields = if rng.chance(1, 5) { canonical = need == 9; 9 } else { need };
+    d.text(if bin { b"aig" } else { b"aag" });
+    for f in h.iter().take(fields) { d.text(format!(" {}", f).as_bytes()); }
+    d.text(b"\n");
+    // offsets at which a line-structured token starts (for `corrupt`), one per section
+    let mut line_starts: Vec<(usize, usize, usize)> = vec![]; // (start offset of section, number of lines, 0)
+    let sec_begin = |d: &Doc| d.bytes.len();
+    // inputs
+    if !bin {
+        let b0 = sec_begin(&d);
+        d.nums(ni as usize, (v0 + 1).wrapping_mul(2), 2, b"", b"\n");
+        line_starts.push((b0, ni as usize, 0));
+    }
+    // latches
+    {
+        let b0 = sec_begin(&d);
+        let next = fixed_lit(rng);
+        let first_state = if bin { (ni + 1).wrapping_mul(2) } else { (v0 + ni + 1).wrapping_mul(2) };
+        let init = rng.below(4);
+        if bin {
+            match init {
+                0 => d.rep(nl as usize, format!("{}\n", next).as_bytes()),
+                1 => d.rep(nl as usize, format!("{} 1\n", next).as_bytes()),
+                2 => { if nl > 0 { canonical = false; } d.rep(nl as usize, format!("{} 0\n", next).as_bytes()) }
+                _ => d.nums(nl as usize, first_state, 2, format!("{} ", next).as_bytes(), b"\n"),
+            }
+        } else {
+            match init {
+                0 | 3 => d.nums(nl as usize, first_state, 2, b"", format!(" {}\n", next).as_bytes()),
+                1 => d.nums(nl as usize, first_state, 2, b"", format!(" {} 1\n", next).as_bytes()),
+                _ => { if nl > 0 { canonical = false; } d.nums(nl as usize, first_state, 2, b"", format!(" {} 0\n", next).as_bytes()) }
+            }
+        }
+        line_starts.push((b0, nl as usize, 0));
+    }
+    // outputs, bad, constraints
+    let lit_section = |d: &mut Doc, rng: &mut Rng, count: u64, line_starts: &mut Vec<(usize, usize, usize)>| {
+        let b0 = d.bytes.len();
+        if count > 0 && rng.chance(1, 2) && (count as u128 - 1) <= maxlit {
+            // increasing literals, ending at the largest one half of the time
+            let start = if rng.chance(1, 2) { (maxlit - (count as u128 - 1)) as u64 } else { 0 };
+            d.nums(count as usize, start, 1, b"", b"\n");
+        } else {
+            let l = fixed_lit(rng);
+            d.rep(count as usize, format!("{}\n", l).as_bytes());
+        }
+        line_starts.push((b0, count as usize, 0));
+    };
+    lit_section(&mut d, rng, no, &mut line_starts);
+    lit_section(&mut d, rng, nb, &mut line_starts);
+    lit_section(&mut d, rng, nc, &mut line_starts);
+    // justice: sizes, then literals
+    {
+        let b0 = sec_begin(&d);
+        let special_first = rng.chance(1, 2);
+        let mut total: u64 = 0;
+        if nj > 0 {
+            if js > 0 {
+                if special_first { d.text(format!("{}\n", js).as_bytes()); }
+                d.rep(nj as usize - 1, format!("{}\n", jc).as_bytes());
+                if !special_first { d.text(format!("{}\n", js).as_bytes()); }
+                total = js + (nj - 1) * jc;
+            } else {
+                d.rep(nj as usize, format!("{}\n", jc).as_bytes());
+                total = nj * jc;
+            }
+        }
+        line_starts.push((b0, nj as usize, 0));
+        lit_section(&mut d, rng, total, &mut line_starts);
+        items += total as usize;
+    }
+    lit_section(&mut d, rng, nf, &mut line_starts);
+    // and gates
+    let mut block: Option<(usize, usize, usize)> = None; // (start, end, bytes per gate)
+    let block_line = d.bytes.iter().filter(|b| **b == b'\n').count() + 1;
+    if bin {
+        let lhs0 = (ni + nl + 1).wrapping_mul(2); // only used when there are gates
+        // constant deltas: valid for the first gate, hence for all
+        let pick_delta = |rng: &mut Rng, max: u64| -> u64 {
+            let v = match rng.below(8) {
+                0 => 0, 1 => 1, 2 | 3 => 2, 4 => 10, 5 => max,
+                _ => { let j = rng.range(1, 9) as u32; (1u64 << (7 * j).min(63)).wrapping_add(rng.range(0, 2)).wrapping_sub(1) }
+            };
+            v.min(max)
+        };
+        let d0 = pick_delta(rng, lhs0);
+        let d1 = pick_delta(rng, lhs0 - d0);
+        let pad = |rng: &mut Rng, v: u64| -> Vec<u8> {
+            let enc = varint(v as u128, 0);
+            if rng.chance(1, 5) { varint(v as u128, rng.range(enc.len() as u64, 10) as usize) } else { enc }
+        };
+        let (e0, e1) = (pad(rng, d0), pad(rng, d1));
+        if na > 0 && (e0 != varint(d0 as u128, 0) || e1 != varint(d1 as u128, 0)) { canonical = false; }
+        let gate = [e0, e1].concat();
+        let b0 = sec_begin(&d);
+        d.rep(na as usize, &gate);
+        block = Some((b0, d.bytes.len(), gate.len()));
+    } else {
+        let b0 = sec_begin(&d);
+        let (a, b) = (fixed_lit(rng), fixed_lit(rng));
+        d.nums(na as usize, (v0 + ni + nl + 1).wrapping_mul(2), 2, b"", format!(" {} {}\n", a, b).as_bytes());
+        line_starts.push((b0, na as usize, 0));
+    }
+    let sym_start = d.bytes.len();
+    // symbols
+    let kinds: Vec<(char, u64)> = [('i', ni), ('l', nl), ('o', no), ('b', nb), ('c', nc), ('j', nj), ('f', nf)]
+        .into_iter().filter(|(_, n)| *n > 0).collect();
+    let ns = size[&Dim::Symbols];
+    let name_len = size[&Dim::Name] as usize;
+    let long_name = |d: &mut Doc, rng: &mut Rng| {
+        if name_len > 0 && !kinds.is_empty() {
+            let (k, n) = *rng.pick(&kinds);
+            d.text(format!("{}{} ", k, if rng.chance(1, 2) { n - 1 } else { 0 }).as_bytes());
+            let pat = rng.pick(NAME_PATS).as_bytes();
+            d.rep(name_len.div_ceil(pat.len()), pat);
+            d.text(b"\n");
+        }
+    };
+    let name_first = rng.chance(1, 2);
+    if name_first { long_name(&mut d, rng); }
+    if ns > 0 && !kinds.is_empty() {
+        let (k, n) = *rng.pick(&kinds);
+        let nm = *rng.pick(SCALE_NAMES);
+        if n >= ns && rng.chance(2, 3) {
+            d.nums(ns as usize, 0, 1, &[k as u8], format!(" {}\n", nm).as_bytes());
+        } else {
+            d.rep(ns as usize, format!("{}{} {}\n", k, n - 1, nm).as_bytes());
+        }
+    }
+    if !name_first { long_name(&mut d, rng); }
+    // comment
+    let clen = size[&Dim::Comment] as usize;
+    if clen > 0 || rng.chance(1, 4) {
+        d.text(b"c\n");
+        let pat = rng.pick(COMMENT_PATS).as_bytes();
+        d.rep(clen.div_ceil(pat.len()), pat);
+        if rng.chance(1, 2) { d.text(b"tail"); }
+        d.text(b"\n");
+    }
+    let len = d.bytes.len();
+    items += (if bin { 0 } else { ni } + nl + no + nb + nc + nj + nf + na + ns) as usize - if size.contains_key(&pdim) { 0 } else { 0 };
+    st.spent += items / if tail == "ls" { 2 } else { 1 };
+
+    // ---- the tail event
+    let mut case = Case {
+        fmt: if bin { "aig" } else { "aag" }.into(), ty: ty.into(), mode: mode.into(),
+        k: None, ls: false, data: vec![], expect: None, tok: None, w: 0,
+        dtext: Some(d.field()), cut: None, post: None, chunk: None,
+    };
+    // a byte position: mostly near the end, sometimes anywhere, sometimes a scale size
+    let position = |rng: &mut Rng, st: &ScaleState| -> usize {
+        match rng.below(4) {
+            0 => rng.below(len as u64 + 1) as usize,
+            1 => {
+                let fit: Vec<usize> = st.all.iter().copied().filter(|x| *x <= len).collect();
+                if fit.is_empty() { len } else { *rng.pick(&fit) }
+            }
+            _ => len - rng.below(len as u64 / 20 + 1) as usize,
+        }
+    };
+    match tail {
+        "valid" => {
+            // `w=1`: the writer model is run too.  The binary writer model appends to its output
+            // gate by gate (quadratic), the whole-file parser model distributes justice literals in
+            // quadratic time: only small instances of those go through it.
+            if canonical && !(bin && nl + na > 4096) && nj <= 4096 && js <= 4096 { case.w = 1; }
+        }
+        "fault" => {
+            case.k = Some(position(rng, st));
+        }
+        "cut" => {
+            case.cut = Some(position(rng, st));
+        }
+        "ls" => {
+            case.ls = true;
+            let c = match rng.below(8) {
+                0 => 1, 1 => rng.range(2, 64) as usize, 2 => 4096, 3 => *rng.pick(&st.all), _ => 16384,
+            };
+            case.chunk = Some(c);
+            if rng.chance(1, 5) { case.cut = Some(position(rng, st)); }
+        }
+        _ => {
+            // corrupt: a bad token (or a long run of one byte class) where a token starts
+            let target = position(rng, st).min(sym_start.saturating_sub(1));
+            // the header, a line of a text section, or a gate of the binary block
+            let mut cut = 0usize;
+            let mut tline = 1usize;
+            let mut tcol = 1usize;
+            let mut in_block = false;
+            if let Some((bs, be, gl)) = block {
+                if target >= bs && target < be {
+                    cut = bs + (target - bs) / gl * gl;
+                    tline = block_line;
+                    tcol = cut - bs + 1;
+                    in_block = true;
+                }
+            }
+            if !in_block {
+                // start of the line that contains `target` (the header line: one of its fields)
+                let ls = d.bytes[..target.min(len)].iter().rposition(|b| *b == b'\n').map(|p| p + 1).unwrap_or(0);
+                if ls == 0 {
+                    let hl = d.bytes.iter().position(|b| *b == b'\n').unwrap();
+                    let sp: Vec<usize> = (0..hl).filter(|i| d.bytes[*i] == b' ').collect();
+                    cut = *rng.pick(&sp) + 1;
+                    tcol = cut + 1;
+                } else {
+                    cut = ls;
+                    tline = d.bytes[..ls].iter().filter(|b| **b == b'\n').count() + 1;
+                    if let Some((bs, be, _)) = block {
+                        // lines after the block do not occur here (target < sym_start); a line start
+                        // equal to the block start with an empty block is an ordinary line
+                        let _ = (bs, be);
+                    }
+                }
+            }
+            let run = |rng: &mut Rng, st: &ScaleState| -> usize { *rng.pick(&st.all) };
+            let (post, tn): (String, usize) = if in_block {
+                match rng.below(4) {
+                    0 => { let n = run(rng, st); (format!("r{}.80", n), n) }
+                    1 => { let n = run(rng, st); (format!("r{}.ff", n), n) }
+                    2 => ("ffffffffffffffffff02".into(), 10),
+                    _ => ("80808080808080808080".into(), 10),
+                }
+            } else {
+                match rng.below(9) {
+                    0 => ("780a".into(), 1),
+                    1 => ("39393939393939393939393939393939393939393939390a".into(), 23),
+                    2 => ("30310a".into(), 2),
+                    3 => ("2d310a".into(), 2),
+                    4 => { let n = run(rng, st); (format!("r{}.20+310a", n), n + 1) }
+                    5 => { let n = run(rng, st); (format!("r{}.39+0a", n), n) }
+                    6 => { let n = run(rng, st); (format!("r{}.30+0a", n), n) }
+                    7 => { let n = run(rng, st); (format!("r{}.0a", n), n) }
+                    _ => { let n = run(rng, st); (format!("31+r{}.09+0a", n), n + 1) }
+                }
+            };
+            case.cut = Some(cut);
+            case.post = Some(post);
+            case.tok = Some((tline, tcol, tn));
+        }
+    }
+    case.line()
 }
